@@ -90,7 +90,14 @@ func TestVerifC12Frames(t *testing.T) {
 	emp.c12BuildCorpus(cr)
 	rep.Note("corpus: %d items on the populated chain, %d on the empty chain", len(pop.corpus), len(emp.corpus))
 	n := c12Scale(78000, 2600000)
-	for i := 0; i < n && !c.stop; i++ {
+	from := 0
+	if v, err := strconv.Atoi(os.Getenv("VERIF_C12_FROM")); err == nil { // development aid: run cases [FROM, TO) only
+		from = v
+	}
+	if v, err := strconv.Atoi(os.Getenv("VERIF_C12_TO")); err == nil && v < n {
+		n = v
+	}
+	for i := from; i < n && !c.stop; i++ {
 		r := verifutil.Stream(12, 2, uint64(i))
 		s := pop
 		if r.Intn(100) < 30 {
